@@ -5,6 +5,9 @@
   * `rk23_reject_factor_nan` : RK23 shrinks by `scale_min` on a NaN norm (any number system with `isNaN`).
   * `hIter_cases` : every pass of the Hairer loop either exits, accepts or rejects; budget and underflow guards are the
     first tests of every pass (`hGuard`).
+  * `dopri5_guard_progress`, `dop853_guard_progress`, `rk23_guard_progress` : read in an ordered field, a step that passes
+    the translated underflow guard is significant relative to the current abscissa — `|x|·uround < |h|/10`, hence `h ≠ 0`
+    and `x + h ≠ x` — for every sign of `x` and `h`; `hGuard_none_progress` carries this to the loop head.
   Termination itself (well-founded descent of |h| under the underflow guard) is not proved; the hostile monitor runs
   blow-up / NaN / discontinuous / stiff problems on all six methods under a work budget.
 -/
@@ -36,4 +39,69 @@ theorem rk23_reject_factor_nan (safety err ee smin : α) (h : Num.isNaN err = tr
     Gen.Rk23.hRejectFactor safety err ee smin = smin := by
   unfold Gen.Rk23.hRejectFactor
   rw [if_pos h]
+end Ctl
+
+namespace Ctl
+noncomputable section
+variable {K : Type} [Field K] [LinearOrder K] [IsStrictOrderedRing K] [SqrtPow K] {n : Nat}
+
+private theorem progress_of (h x u : K) (hu : 0 ≤ u) (hg : |x| * u < (1 : K) / 10 * |h|) : h ≠ 0 ∧ x + h ≠ x := by
+  have h0 : h ≠ 0 := by
+    rintro rfl
+    have := mul_nonneg (abs_nonneg x) hu
+    simp at hg
+    linarith
+  exact ⟨h0, fun e => h0 (by linarith)⟩
+
+/-- a step that passes the underflow guard of dopri5.rs is significant: |x|·uround < |h|/10, so it is non-zero and
+    moves x (exact arithmetic), whatever the signs of x and h -/
+theorem dopri5_guard_progress (h x u : K) (hu : 0 ≤ u) (hg : ¬ Gen.Dopri5.underflowGuard h x u) :
+    |x| * u < (1 : K) / 10 * |h| ∧ h ≠ 0 ∧ x + h ≠ x := by
+  unfold Gen.Dopri5.underflowGuard at hg
+  simp only [num_lit, num_abs, not_le] at hg
+  have hg' : |x| * u < (1 : K) / 10 * |h| := by simpa using hg
+  exact ⟨hg', progress_of h x u hu hg'⟩
+
+theorem dop853_guard_progress (h x u : K) (hu : 0 ≤ u) (hg : ¬ Gen.Dop853.underflowGuard h x u) :
+    |x| * u < (1 : K) / 10 * |h| ∧ h ≠ 0 ∧ x + h ≠ x := by
+  unfold Gen.Dop853.underflowGuard at hg
+  simp only [num_lit, num_abs, not_le] at hg
+  have hg' : |x| * u < (1 : K) / 10 * |h| := by simpa using hg
+  exact ⟨hg', progress_of h x u hu hg'⟩
+
+/-- rk23.rs uses the literal 2⁻⁵² as unit round-off -/
+theorem rk23_guard_progress (h x : K) (hg : ¬ Gen.Rk23.underflowGuard h x) :
+    |x| * ((1 : K) / 4503599627370496) < (1 : K) / 10 * |h| ∧ h ≠ 0 ∧ x + h ≠ x := by
+  unfold Gen.Rk23.underflowGuard at hg
+  simp only [num_lit, num_abs, not_le] at hg
+  have hg' : |x| * ((1 : K) / 4503599627370496) < (1 : K) / 10 * |h| := by simpa using hg
+  exact ⟨hg', progress_of h x _ (by positivity) hg'⟩
+
+/-- loop head of DOPRI5 / DOP853: if neither guard fires, the step about to be tried is non-zero -/
+theorem hGuard_none_progress {σ : Type} (P : HParams K n) (s : HState σ K n) (hu : 0 ≤ P.uround)
+    (hP : ∀ h x u, P.underflow h x u ↔ (1 : K) / 10 * |h| ≤ |x| * u) (hg : hGuard P s = none) :
+    s.h ≠ 0 ∧ s.x + s.h ≠ s.x ∧ s.m.cnt.total ≤ P.nmax := by
+  unfold hGuard at hg
+  split at hg
+  · cases hg
+  · split at hg
+    · cases hg
+    · rename_i h1 h2
+      have h2' := (not_congr (hP s.h s.x P.uround)).mp h2
+      exact ⟨(progress_of s.h s.x P.uround hu (not_le.mp h2')).1, (progress_of s.h s.x P.uround hu (not_le.mp h2')).2, not_lt.mp h1⟩
+
+/-- the DOPRI5 / DOP853 parameter records carry exactly that guard -/
+theorem dopri5Params_underflow (L : HLits K) (xend posneg uround safety smin smax beta hmax : K) (nmax nstiff : Nat) (dense : Bool)
+    (h x u : K) :
+    (dopri5Params (n := n) L xend posneg uround safety smin smax beta hmax nmax nstiff dense).underflow h x u
+      ↔ (1 : K) / 10 * |h| ≤ |x| * u := by
+  simp [dopri5Params, Gen.Dopri5.underflowGuard, num_lit]
+
+theorem dop853Params_underflow (L : HLits K) (xend posneg uround safety smin smax beta hmax : K) (nmax nstiff : Nat) (dense : Bool)
+    (h x u : K) :
+    (dop853Params (n := n) L xend posneg uround safety smin smax beta hmax nmax nstiff dense).underflow h x u
+      ↔ (1 : K) / 10 * |h| ≤ |x| * u := by
+  simp [dop853Params, Gen.Dop853.underflowGuard, num_lit]
+
+end
 end Ctl
